@@ -8,10 +8,10 @@ mv tests/zz_demo.rs /tmp/zz_demo_$$.rs
 cargo test --workspace --no-fail-fast --offline 2>&1 | grep -E "^test result|FAILED|failed" | awk '{p+=$4; f+=$6} END {print "passed", p, "failed", f}'
 mv /tmp/zz_demo_$$.rs tests/zz_demo.rs
 echo "== demo with change"
-cargo test --offline --test zz_demo 2>&1 | grep -E "^test result|panicked" | head -3
+cargo test --offline --test zz_demo 2>&1 | grep -E "^test result" | head -3
 echo "== demo without change"
 git diff -- src bevy_replicon_example_backend > /tmp/confirm_$$.diff
 git apply -R /tmp/confirm_$$.diff
-cargo test --offline --test zz_demo 2>&1 | grep -E "^test result|panicked" | head -3
+cargo test --offline --test zz_demo 2>&1 | grep -E "^test result" | head -3
 git apply /tmp/confirm_$$.diff; rm -f /tmp/confirm_$$.diff
 git status --short | head -5
